@@ -1,5 +1,5 @@
 SPECIFICATION Spec
-CONSTANTS S1 = 7 S2 = 0 S3 = 0  MaxV = 3  Start = "P"  Strict = FALSE  Cross = FALSE  Close = FALSE
+CONSTANTS S1 = 7 S2 = 0 S3 = 0  MaxV = 3  Start = "P"  Strict = FALSE  Cross = FALSE  Close = FALSE  LabelBoundary = FALSE
 CHECK_DEADLOCK FALSE
 INVARIANT Content
 INVARIANT Tight
